@@ -134,6 +134,8 @@ inline std::vector<Ev> deep_alphabet() {
         {"WELOPEN_P1c", "WELOPEN\n 'P1' SHUT 0 0 2 /\n/\n"},
         {"COMPDAT_P1b", "COMPDAT\n 'P1' 1 1 2 2 OPEN 1* 25.0 0.3 /\n/\n"},
         {"GRUPTREE", "GRUPTREE\n 'G1' 'PLAT' /\n 'G2' 'PLAT' /\n/\n"},
+        {"GRUPTREE_new", "GRUPTREE\n 'M1' 'PLAT' /\n 'M2' 'PLAT' /\n/\n"},
+        {"GRUPTREE_move", "GRUPTREE\n 'M1' 'M2' /\n/\n"},
         {"GCONPROD", "GCONPROD\n 'G1' ORAT 1000 /\n/\n"},
         {"WEFAC", "WEFAC\n 'P1' 0.8 /\n/\n"},
         {"GEFAC", "GEFAC\n 'G1' 0.9 /\n/\n"},
@@ -185,6 +187,9 @@ inline std::vector<Ev> broad_alphabet() {
         {"GRUPNET", "GRUPNET\n 'G1' 20 3 /\n/\n"},
         {"GRUPTREE", "GRUPTREE\n 'G3' 'G1' /\n/\n"},
         {"GRUPTREE_move", "GRUPTREE\n 'G2' 'G1' /\n/\n"},
+        {"GRUPTREE_newpair", "GRUPTREE\n 'M1' 'PLAT' /\n 'M2' 'PLAT' /\n/\n"},
+        {"GRUPTREE_move_M1", "GRUPTREE\n 'M1' 'M2' /\n/\n"},
+        {"GRUPTREE_back_M1", "GRUPTREE\n 'M1' 'PLAT' /\n/\n"},
         {"GUIDERAT", "GUIDERAT\n 0 OIL 1 0.5 1 1 0 0 YES 0.5 /\n"},
         {"LINCOM", "LINCOM\n 1 0.5 0.1 /\n"},
         {"MESSAGES", "MESSAGES\n 10 10 10 10 10 10 /\n"},
